@@ -192,7 +192,43 @@ impl Prop for C15 {
             },
         );
         let varint_heavy = proptest::collection::vec(prop_oneof![Just(0xffu8), Just(0x80u8), Just(0x7fu8), Just(0x01u8), Just(0x0fu8), any::<u8>()], 0..16);
-        let strat = prop_oneof![2 => proptest::collection::vec(any::<u8>(), 0..16), 3 => mutated, 3 => varint_heavy];
+        // well-formed varints carrying boundary VALUES: flagged index as u64 (incl. values beyond 33 bits), optional generation
+        // as u64 (incl. u32::MAX, 2^31-1, values that do not fit u32), optional trailing bytes
+        fn leb(mut v: u64) -> Vec<u8> {
+            let mut out = Vec::new();
+            loop {
+                let b = (v & 0x7f) as u8;
+                v >>= 7;
+                if v == 0 {
+                    out.push(b);
+                    break;
+                }
+                out.push(b | 0x80);
+            }
+            out
+        }
+        let edge64 = prop_oneof![
+            (0u32..64).prop_map(|k| 1u64 << k),
+            (1u32..65).prop_map(|k| if k == 64 { u64::MAX } else { (1u64 << k) - 1 }),
+            (1u32..64).prop_map(|k| (1u64 << k) - 2),
+            (0u32..63).prop_map(|k| (1u64 << k) + 1),
+            any::<u64>(),
+            (0u64..300),
+        ];
+        let structured = (edge64.clone(), proptest::option::of(edge64), proptest::collection::vec(any::<u8>(), 0..3)).prop_map(|(idx, generation, tail)| {
+            let mut v = leb(idx);
+            if let Some(g) = generation {
+                // make sure the flag bit asks for a generation in most cases
+                if idx & 1 == 0 {
+                    v = leb(idx | 1);
+                }
+                v.extend(leb(g));
+            }
+            v.extend(tail);
+            v.truncate(24);
+            v
+        });
+        let strat = prop_oneof![2 => proptest::collection::vec(any::<u8>(), 0..16), 3 => mutated, 2 => varint_heavy, 4 => structured];
         run_proptest("decode_random", strat, cases, seed, 2000, stats, |d: &Vec<u8>| guarded("C15", || decode_total(d)))
     }
     fn replay(&self, unit: &str, case: &Value) -> Outcome {
@@ -221,7 +257,7 @@ impl Prop for C15 {
     fn rule(&self) -> String {
         "round trip: index x generation exhaustively over the boundary lattice {0,1,2,2^k-2..2^k+1,...,2^32-1} x {1..2^31-1 boundaries} with and without surrounding bytes, \
          random pairs elsewhere; oracle decode(encode(e)) == e consuming exactly the encoding and leaving the suffix untouched. totality: ALL byte strings of length 0..3 \
-         (16 843 009, exhaustive), random, varint-heavy and mutated canonical encodings up to 16 bytes; oracle: Err, or an identifier accepted by Entity::try_from_bits that \
+         (16 843 009, exhaustive), random, varint-heavy, mutated canonical encodings up to 16 bytes and well-formed varints carrying boundary values (2^k, 2^k+-1, u32::MAX, u64::MAX) for index and generation; oracle: Err, or an identifier accepted by Entity::try_from_bits that \
          re-encodes and decodes to itself; a panic is a violation. non-trivial = generation > 1 or index >= 128 (round trip) / non-empty input that is rejected or is not the \
          canonical encoding of what it decodes to (totality)"
             .into()
